@@ -42,11 +42,11 @@ func Corpus() []*Scenario {
 			Script: []Fault{{Kind: "lose-ack"}},
 			Gates:  []GateSpec{{Kind: "pp.recv", Nth: 2, Partition: 0, Retries: 1, Data: true}},
 			Steps:  []Step{{Op: "submit", Arg: 0}, {Op: "wait-gate", Arg: 0}, {Op: "sleep", Arg: 70}, {Op: "release", Arg: 0}, {Op: "sleep", Arg: 60}}},
-		// c05_refuted_backlog: [1] is answered NotLeaderForPartition (nothing appended) and re-sent whole; message 2 is
+		// the unsequenced-backlog defect (repaired in /repo 271dd24; c05_backlog_repaired): [1] is answered NotLeaderForPartition (nothing appended) and re-sent whole; message 2 is
 		// bounced by the broker worker and opens retry level 1 at the partition worker; while the fin marker is on its
 		// way back (held at the retry handler) the fresh message 3 is parked in the level-0 backlog; flushRetryBuffers
-		// forwards it WITHOUT a sequence number: it travels as (epoch 0, sequence 0), the broker takes it for the
-		// cached batch [1] and answers Ok: message 3 is reported successful and is not in the log
+		// of the pinned tree forwarded it WITHOUT a sequence number: (epoch 0, sequence 0), taken for the cached batch [1],
+		// answered Ok: reported successful, not in the log. Repaired: stamped (epoch 0, sequence 2), appended once
 		{Name: "witness/unsequenced-backlog", Brokers: 1, Partitions: 1, RetryMax: 2,
 			Msgs:   []MsgSpec{{ID: 1, Partition: 0}, {ID: 2, Partition: 0, Wave: 1}, {ID: 3, Partition: 0, Wave: 2}},
 			Script: []Fault{ans(pRetriable)},
